@@ -37,6 +37,9 @@ def gen_cases(ctx):
     for k in range(n_cases):
         ns = int(rng.integers(2, 6))
         sizes = [int(rng.integers(1, 9)) for _ in range(ns)]
+        if k % 12 == 5:  # many surveys: label order 0,1,..,10,11 (numeric, not lexicographic)
+            ns = int(rng.integers(11, 14))
+            sizes = [int(rng.integers(1, 3)) for _ in range(ns)]
         layout = ["disjoint", "interleaved", "identical", "reversed", "random"][int(rng.integers(0, 5))]
         base = float(rng.integers(50000, 59000))
         ts = []
@@ -63,7 +66,7 @@ def gen_cases(ctx):
         elif form == "dict_int":
             keys = [int(x) for x in rng.choice(50, ns, replace=False)]
         else:
-            keys = [str(x) for x in rng.choice(["apogee", "harps", "lamost", "keck", "b", "Z9", "sdss", "x1"], ns, replace=False)]
+            keys = [str(x) for x in rng.choice(["apogee", "harps", "lamost", "keck", "b", "Z9", "sdss", "x1", "s10", "s2", "S2", "a", "aa", "k9", "k10"], ns, replace=False)]
         units = ["km/s"] + [["km/s", "m/s"][int(rng.random() < 0.25)] for _ in range(ns - 1)]
         cases.append(dict(sizes=sizes, layout=layout, t=ts, rv=rvs, err=errs, form=form, keys=keys, units=units,
                           poly_trend=int(rng.integers(1, 4))))
